@@ -124,7 +124,10 @@ def oracle(sc, o):
                 nxt = next(((k2, e2) for (_, k2, _, e2) in ev[n + 1:] if k2 in ("arrivals", "msgs", "returns")), None)
                 if nxt is not None and nxt[0] == "arrivals" and nxt[1] == "ckpt":
                     if cleared:
-                        STATS["not-judged:deferred-after-clear_checkpoint"] += 1
+                        # recorded finding: a checkpoint after clear_checkpoint does not restore resumability, the
+                        # deferred pause becomes a FailedPause and the plan is aborted instead of paused
+                        STATS["known:deferred-after-clear_checkpoint"] += 1
+                        bad.append(("deferred-pause-at-checkpoint-after-clear_checkpoint:aborts", f"deferred pause ({pending['src']}) reached the checkpoint (msg #{mid}) after an earlier clear_checkpoint: the engine does not pause there (FailedPause, plan aborted)"))
                         pending = None
                     else:
                         pending.update(stage="await-pause", ck=i)
